@@ -43,6 +43,8 @@ type domain struct {
 	byteTemplates []string
 	// fillers used to pad inputs to threshold lengths
 	fillers []string
+	// opener/closer pairs that make the whole padding one token
+	wraps [][2]string
 }
 
 type scaleFam struct{ prefix, unit, suffix string }
@@ -75,6 +77,8 @@ func planMix(d *domain, mixes []Mix) []core.Unit {
 			us = append(us, gen.RangeUnits("bytetpl", 256, 16, "")...)
 			// every two-byte UTF-8 character and three ranges of longer ones
 			us = append(us, gen.RangeUnits("utf8tpl", uint64(len(utf8Chars())), 96, "")...)
+		case "nulpad":
+			us = append(us, gen.RangeUnits("nulpad", 12*32*4, 384, "")...)
 		case "scale":
 			// N = size in bytes; one unit per family so that workers share them
 			for i := range d.scale {
@@ -180,10 +184,10 @@ func genMix(d *domain, w *core.Worker, u core.Unit, emit func(core.Case)) bool {
 		c := d.corpus()
 		for i := u.Lo; i < u.Hi; i++ {
 			base := c[(int(i)*37+11)%len(c)]
-			lens := []int{255, 256, 257, 1024, 4096, 4097, 65536}
+			lens := []int{255, 256, 257, 1024, 4096, 4097, 65536, 65537, 70000}
 			all := d.fillers
 			if u.Arg == "1" {
-				lens = []int{255, 256, 257, 1023, 1024, 1025, 4095, 4096, 4097, 8191, 8192, 16385, 32768, 65535, 65536, 65537}
+				lens = []int{255, 256, 257, 1023, 1024, 1025, 4095, 4096, 4097, 8191, 8192, 16385, 32768, 65535, 65536, 65537, 70000, 131073}
 			}
 			for li, n := range lens {
 				// quick: three fillers per (base, length), rotating through the list
@@ -198,6 +202,12 @@ func genMix(d *domain, w *core.Worker, u core.Unit, emit func(core.Case)) bool {
 						continue
 					}
 					pad := strings.Repeat(filler, k/len(filler)+1)[:k]
+					if (int(i)+pi+li)%5 == 4 && k > 8 && len(d.wraps) > 0 {
+						// the padding as ONE token spanning the threshold (a comment, a
+						// string, a quoted attribute value) instead of many small ones
+						wr := d.wraps[(int(i)+li)%len(d.wraps)]
+						pad = wr[0] + strings.Repeat("a", k-len(wr[0])-len(wr[1])) + wr[1]
+					}
 					switch (int(i) + pi) % 3 {
 					case 0:
 						emit(core.Case{In: base + pad})
@@ -229,6 +239,26 @@ func genMix(d *domain, w *core.Worker, u core.Unit, emit func(core.Case)) bool {
 		for i := u.Lo; i < u.Hi && i < uint64(len(cs)); i++ {
 			for _, t := range d.byteTemplates {
 				emit(core.Case{In: strings.ReplaceAll(t, "\xfe\xfe", cs[i])})
+			}
+		}
+	case "nulpad":
+		// short text with runs of NUL bytes before, after and inside it (C-string
+		// terminators and padding as WAF connectors hand them over)
+		words := []string{"", "a", "ab", "x y", "on", "'", "1", "abc def", "--", "\"", "id", ">"}
+		runs := []int{1, 2, 3, 4, 5, 6, 7, 8, 9, 10, 12, 14, 16, 20, 24, 28, 31, 32, 33, 40, 48, 63, 64, 65, 100, 255, 256, 300, 511, 512, 513, 1000}
+		for i := u.Lo; i < u.Hi; i++ {
+			w := words[int(i)%len(words)]
+			k := runs[int(i/uint64(len(words)))%len(runs)]
+			z := strings.Repeat("\x00", k)
+			switch (i / uint64(len(words)*len(runs))) % 4 {
+			case 0:
+				emit(core.Case{In: w + z})
+			case 1:
+				emit(core.Case{In: z + w})
+			case 2:
+				emit(core.Case{In: w + z + w})
+			default:
+				emit(core.Case{In: z[:k/2] + w + z[k/2:]})
 			}
 		}
 	case "scale":
